@@ -212,7 +212,11 @@ func OverflowSweep(mp int, qs []int) []Job {
 					g.write(x, hx, 1+i%3)
 				}
 				g.sync(x)
-				g.aftermath(q + 2)
+				// traffic after the overflow: must fail, and must not reach the reader past a gap
+				g.write(x, hx, 5)
+				g.write(x, hx, 6)
+				g.sync(x)
+				g.aftermath(q + 3)
 				jobs = append(jobs, Job{fmt.Sprintf("overflow-q%d-r%d-d%d", q, r, dir), g.script("overflow", true)})
 			}
 		}
@@ -278,7 +282,11 @@ func RandomScript(r *rand.Rand, mp int, i int) Job {
 		// write until the cut has certainly been reached
 		for left := k; left >= 0; {
 			n := sizes[r.Intn(len(sizes))]
-			g.write(x, hs[x][r.Intn(nids)], n)
+			c := r.Intn(nids)
+			if hy := hs[1-x][c]; g.pend[1-x][hy] >= qlen && !g.cdead[1-x][hy] {
+				g.read(1-x, hy, 256, 256) // make room: this failure is to be the cut, not an overflow
+			}
+			g.write(x, hs[x][c], n)
 			left -= 8 + n
 		}
 		g.dead = true
